@@ -307,7 +307,47 @@ def stream_categorical(R, categorical_ndarray):
         ok = cats == sorted(set(values)) and [cats[int(c)] for c in codes] == values
         if not ok:
             R.fail('oracle', {'stream': 'categorical', 'values': values}, {'categories': cats, 'codes': codes.tolist()})
-    R.stream('categorical', cases=len(cases), exhaustive=True, bound='all arrays of length 1..%d over 5 three-letter alphabets (str, int, mixed width)' % Lmax)
+    # derived arrays (views, reorderings, copies) made AFTER the parent's codes were read keep the parent's
+    # categories and must still satisfy categories[codes] == values
+    rng = R.subrng('catderived')
+    dcases = []
+    for al, vals in cases:
+        if len(vals) < 3 or rng.random() > R.pick(0.25, 0.6):
+            continue
+        values = [al[v] for v in vals]
+        parent = categorical_ndarray(values)
+        parent.codes, parent.categories   # cached on the parent
+        n = len(values)
+        perm = list(range(n))
+        rng.shuffle(perm)
+        derived = {'reverse': parent[::-1], 'perm': parent[np.array(perm)], 'roll': np.roll(parent, 1), 'tail': parent[1:],
+                   'stride': parent[::2], 'copy': parent.copy(), 'full': parent[:], 'sorted': np.sort(parent)}
+        if n % 2 == 0:
+            derived['reshape'] = parent.reshape((2, n // 2))
+        for how, d in derived.items():
+            dcases.append((al, values, how, d))
+    lines = []
+    for al, values, how, d in dcases:
+        rank = {v: i for i, v in enumerate(sorted(al))}
+        dvals = [x for x in np.asarray(d).ravel().tolist()]
+        lines.append(enc((8, [Z([rank[c] for c in d.categories.tolist()]), Z([rank[v] for v in dvals])])))
+    outs = R.model(lines)
+    for (al, values, how, d), o in zip(dcases, outs):
+        dvals = np.asarray(d).ravel().tolist()
+        cats = d.categories.tolist()
+        codes = np.asarray(d.codes).ravel()
+        R.count(('catd', tuple(map(str, al)), tuple(map(str, values)), how), nontrivial=True, stream='categorical_derived', derived=how)
+        if [int(c) for c in codes] != to_zs(o):
+            R.fail('correspondence', {'stream': 'categorical_derived', 'values': values, 'derived': how},
+                   {'model_codes': to_zs(o), 'impl_codes': codes.tolist()})
+        ok = cats == sorted(set(cats)) and all(c == c for c in codes) and [cats[int(c)] for c in codes] == dvals \
+            and np.asarray(d.codes).shape == np.asarray(d).shape
+        if not ok:
+            R.fail('oracle', {'stream': 'categorical_derived', 'values': values, 'derived': how},
+                   {'derived_values': dvals, 'categories': cats, 'codes': codes.tolist()})
+    R.stream('categorical', cases=len(cases), exhaustive=True, derived_cases=len(dcases),
+             bound='all arrays of length 1..%d over 5 three-letter alphabets (str, int, mixed width); derived arrays '
+                   '(reverse, permutation, roll, slice, stride, copy, sort, reshape) after the parent codes were read' % Lmax)
 
 
 def run(R):
